@@ -968,6 +968,38 @@ pub fn one_case(idx: usize, long_every: usize, r: &mut Rng, silent: &Arc<Mutex<O
     let first = simk::with_fd(ring_fd, |s| s.pbuf_available(bgid)).unwrap();
     let base = first.iter().find(|e| e.0 == 0).map(|e| e.1 as usize).unwrap_or(0);
     let g = Geom { ring_fd, bgid, base, n, size };
+    // One case in 150: the process creates (and drops) other pools on the same ring until the
+    // 16-bit buffer-group counter comes round to this pool's id; that creation is refused by the
+    // kernel (EEXIST) and must leave this pool alone: still registered, nothing offered changed.
+    let mut id_wrap: Option<String> = None;
+    let mut wrapped_ids = false;
+    if !huge && idx % 150 == 11 {
+        wrapped_ids = true;
+        let mut refused = 0u32;
+        for _ in 0..70_000u32 {
+            match ReadBufPool::new(sq.clone(), 1, 1) {
+                Ok(p) => drop(p),
+                Err(e) if e.raw_os_error() == Some(libc::EEXIST) => {
+                    refused += 1;
+                    break;
+                }
+                Err(e) => {
+                    id_wrap = Some(format!("creating a short-lived pool failed with {e}"));
+                    break;
+                }
+            }
+        }
+        let _ = simk::with_fd(ring_fd, |s| s.take_log());
+        let still = simk::with_fd(ring_fd, |s| s.pbufs.contains_key(&bgid)).unwrap_or(false);
+        let now = simk::with_fd(ring_fd, |s| s.pbuf_available(bgid)).unwrap_or_default();
+        if refused != 1 && id_wrap.is_none() {
+            id_wrap = Some("65536 further pools were created on the ring and none collided with this pool's buffer group id".into());
+        } else if !still {
+            id_wrap = Some(format!("after another ReadBufPool::new was refused with EEXIST (its buffer group id, {bgid}, is this pool's) this pool's buffer group is no longer registered: every read from it fails with ENOBUFS"));
+        } else if now != first {
+            id_wrap = Some("a refused ReadBufPool::new changed what this pool offers to the kernel".into());
+        }
+    }
     let mut ops = Vec::new();
     for o in 0..NOPS {
         simk::add_fake_fd(fake_fd(o));
@@ -996,6 +1028,9 @@ pub fn one_case(idx: usize, long_every: usize, r: &mut Rng, silent: &Arc<Mutex<O
     let mut rec = Recorder { events: Vec::new(), obs: Vec::new() };
     // Initial state: every buffer offered, in order.
     rec.obs.extend(w.snapshot());
+    if let Some(m) = id_wrap {
+        w.fail(m);
+    }
     if first.len() != n || first.iter().enumerate().any(|(i, e)| e.0 as usize != i || e.1 as usize != base + i * size || e.2 as usize != size) {
         w.fail(format!("a new pool of {n} x {size} bytes offers {:?}", first));
     }
@@ -1003,6 +1038,9 @@ pub fn one_case(idx: usize, long_every: usize, r: &mut Rng, silent: &Arc<Mutex<O
 
     let mut tags: Vec<String> = vec![format!("pool_size:{n}"), format!("buf_size:{}", if size == 1 { "1".into() } else if size < 8 { "2-7".to_string() } else if size < 64 { "8-63".into() } else if size == 64 { "64".to_string() } else { "1GiB(pool>4GiB)".to_string() })];
     let mut threaded = false;
+    if wrapped_ids {
+        tags.push("buffer-group-ids-wrapped(65536 other pools)".into());
+    }
 
     if corpus_h26 {
         // Regression corpus for H26: both buffers picked and delivered; one thread drops the ReadBuf
